@@ -170,7 +170,7 @@ ValidDT(t) == /\ t.day \in 1..DaysIn(t.mon, t.year) /\ t.mon \in 1..12 /\ t.year
               /\ t.zs \in {"+", "-"} /\ t.zh \in 0..23 /\ t.zm \in 0..59
               /\ (t.dsp => t.day < 10)
 DTMonths == {DT(m + 16, FALSE, m, 1990 + m, m, 2 * m, 3 * m, "+", 0, 0) : m \in 1..12}
-DTZones  == {DT(17, FALSE, 7, 1996, 2, 44, 25, zs, z[1], z[2]) : zs \in {"+", "-"}, z \in {<<0, 0>>, <<5, 30>>, <<8, 0>>, <<12, 45>>}}
+DTZones  == {DT(17, FALSE, 7, 1996, 2, 44, 25, zs, z[1], z[2]) : zs \in {"+", "-"}, z \in {<<0, 0>>, <<0, 30>>, <<5, 30>>, <<8, 0>>, <<12, 45>>}}
 DTDays   == {DT(d, sp, 2, 2024, 23, 59, 59, "-", 7, 0) : d \in {1, 9}, sp \in BOOLEAN} \cup {DT(29, FALSE, 2, 2024, 0, 0, 0, "+", 1, 0)}
 DateTimes == {t \in (IF Rich THEN DTMonths \cup DTZones \cup DTDays
                      ELSE {t \in DTMonths : t.mon \in {1, 12}} \cup {t \in DTZones : t.zh \in {0, 5}} \cup DTDays) : ValidDT(t)}
